@@ -418,17 +418,19 @@ def run_standalone_unit(unit, tier, seed):
     spec.loader.exec_module(mod)
     wd = tempfile.mkdtemp(prefix='mathcat-verif-k2-%s-' % unit['unit'])
     try:
-        def one(mutation=None):
+        def one(mutation=None, only_harness=None):
             g = mod.generate(REPO, mutation)         # -> {'rs': text, 'harnesses': [{name, inputs, covers, requires, ensures, decode}], 'assumptions': [...], 'dropped': [...]}
             path = os.path.join(wd, unit['unit'].lower() + '.rs')
             open(path, 'w', encoding='utf-8').write(g['rs'])
             hs = [h for h in g['harnesses'] if not (tier == 'quick' and h.get('tier') == 'thorough')]
+            if only_harness:
+                hs = [h for h in hs if h['name'] == only_harness]
             cmd = ['kani', path] + KANI_BASE + ['-j', str(min(JOBS, max(1, len(hs))))]
             for h in hs:
                 cmd += ['--harness', h['name']]
             rc, out, wall = run_cmd(cmd, wd, max(h.get('timeout', 300) for h in hs) * (1 + len(hs) // JOBS) + 120, mem_gb=56)
             parsed = parse_kani_output(out)
-            for h in hs:
+            for h in (hs if not only_harness else []):
                 for k in [k for k in parsed if k.endswith(h['name']) and parsed[k]['status'] == 'failed']:
                     rc2, out2, w2 = run_cmd(['kani', path] + KANI_FLAGS + ['--harness', h['name']], wd, h.get('timeout', 300) + 120, mem_gb=56)
                     for k2, v2 in parse_kani_output(out2).items():
@@ -481,7 +483,7 @@ def run_standalone_unit(unit, tier, seed):
             cans = getattr(mod, 'CANARIES', [])
             for c in (cans if tier == 'thorough' else cans[:1]):
                 try:
-                    g2, hs2, cmd2, p2, out2 = one(mutation=c)
+                    g2, hs2, cmd2, p2, out2 = one(mutation=c, only_harness=c['expect'])
                     st = [v['status'] for k, v in p2.items() if k.endswith(c['expect'])]
                     res['canaries'].append({'canary': c['name'], 'mutation': c.get('what'), 'expected_to_fail': c['expect'], 'ok': st == ['failed'], 'note': '' if st == ['failed'] else 'verdict %s' % st})
                 except CutError as e:
